@@ -7,18 +7,32 @@ equals the hand-written model function the property theorems are about.  An edit
 source that changes behaviour therefore breaks a proof obligation; a construct outside the subset
 raises `Untranslatable(file, line, node)` -- the translator never guesses.
 
-SORTS (declared per target in harness/translate_all.py; they are the precondition of the tie: "for
-arguments of these Python types")
-    'Z'  int / numpy integer          -> Z
+TARGETS (harness/translate_all.py)
+    'def' : a whole function / method / property / classmethod / staticmethod / __init__.  The sorts of its
+            parameters (after self / cls) are declared positionally, so renaming a parameter is harmless.
+    'var' : the value a local variable holds after the last assignment to it inside a function that is
+            otherwise outside the subset (ImagePSF.evaluate: xi, yi, invalid).  All assignments to the
+            variable must be simple statements of ONE block and nothing they read may be reassigned in
+            between (Translator.var_chain); the free names they read become the arguments.  Such a tie
+            covers the formulas, not the surrounding control flow.
+
+SORTS (declared per target; they are the precondition of the tie: "for arguments of these Python types")
+    'Z'  int (numpy integers behave the same in the translated arithmetic; isinstance(x, int) and
+         isinstance(x, (int, np.integer)) are decided as True)  -> Z
     'Q'  float, read as an exact real -> Q     (NaN/inf and rounding are outside the model, DESIGN 3.1)
     'B'  bool                         -> bool
     'S'  str                          -> string
     ('tuple', (s1, ..., sn))          -> s1 * ... * sn; a tuple ARGUMENT p is flattened into p_0 ... p_{n-1}
-    ('obj', 'Class')                  -> one argument per declared field: self.ixmin -> self_ixmin
+    ('obj', 'Class')                  -> one argument per declared field: self.ixmin -> self_ixmin; an object
+                                         RESULT is the tuple of its fields in declared order
     ('opt', s) / None                 -> option s
     ('list', s)                       -> list s   (only literal np.array([...]) / [...] of fixed length)
     slice(a, b)                       -> the pair (a, b)
   A value of sort Z used where a Q is needed is coerced with inject_Z (Python int -> float promotion).
+  Return statements of different sorts are joined (None with T -> option T, componentwise on tuples:
+  `return None, None` / `return a, b` -> option A * option B); a sort clash is refused.
+  Comparisons are emitted in normal form: only <=?, <?, =? on Z (a >= b becomes b <=? a) and only
+  Qle_bool, Qltb, Qeq_bool on Q, so that rewriting `a >= b` as `b <= a` does not change the output.
 
 EXPRESSIONS
     int / float / bool / str / None literals (a float literal is the exact rational value of the double)
@@ -780,7 +794,7 @@ class Translator:
             return v, (fn if (fn is not None and fn.raising) else None)
         return self.E(node, env), None
 
-    def with_value(self, node, env, base, k, srcnode):
+    def with_value(self, node, env, base, k):
         """IR that evaluates `node`, binds it (as `base`) and continues with k(value, env)"""
         r, wrap = self.own(lambda: self.stmt_value(node, env))
         if r is None:
@@ -816,7 +830,7 @@ class Translator:
     def s_Return(self, s, env, cont):
         if s.value is None:
             return ('ret', V('None', NONE), s)
-        return self.with_value(s.value, env, 'r', lambda v, e: ('ret', v, s), s)
+        return self.with_value(s.value, env, 'r', lambda v, e: ('ret', v, s))
 
     def s_Raise(self, s, env, cont):
         e = s.exc
@@ -861,7 +875,7 @@ class Translator:
             e2, w = self.assign(s.targets[0], v, e, s)
             return w(cont(e2))
         base = s.targets[0].id if isinstance(s.targets[0], ast.Name) else 't'
-        return self.with_value(s.value, env, base, k, s)
+        return self.with_value(s.value, env, base, k)
 
     def s_AugAssign(self, s, env, cont):
         if not isinstance(s.target, ast.Name):
@@ -898,7 +912,7 @@ class Translator:
             def k(v, e1):
                 e2, w = self.bind(s.target.id, v, e1, s)
                 return w(self.block(s.body, e2, lambda e3: run(i + 1, e3)))
-            return self.with_value(items[i], e, s.target.id, k, s)
+            return self.with_value(items[i], e, s.target.id, k)
         return run(0, env)
 
     # -------- rendering
@@ -945,7 +959,8 @@ class Translator:
         self.cls_name, self.init_mode, self.locals = cls_name, init_mode, locals_
 
     def function(self, fdef, src_lines, gen_name, cls_name, sorts):
-        """translate one FunctionDef; `sorts` = {python parameter name: sort}"""
+        """translate one FunctionDef; `sorts` = {python parameter name: sort} or the list of the sorts of the
+        parameters after self / cls (then renaming a parameter in the source is harmless)"""
         decos = [self.dotted(d) for d in fdef.decorator_list]
         if any(d is None for d in decos):
             raise self.bad(fdef, 'decorator')
@@ -967,6 +982,11 @@ class Translator:
         self.qual = self.qual_of(fdef, cls_name)
         env, pyparams = {}, []
         names = [x.arg for x in a.args + a.kwonlyargs]
+        if isinstance(sorts, (list, tuple)):        # positional: sorts of the parameters after self / cls
+            rest = names[1:] if kind in ('method', 'property', 'classmethod') else names
+            if len(rest) != len(sorts):
+                raise self.bad(fdef, f'{len(rest)} parameters but {len(sorts)} declared sorts')
+            sorts = dict(zip(rest, sorts))
         for i, p in enumerate(names):
             if i == 0 and kind in ('method', 'property'):
                 if init_mode:
